@@ -151,6 +151,8 @@ SITES = [
     ("regexpStepCharge", "lib/efuns/regexp.c", r"#define REGEXP_STEPS_PER_TICK (\d+)", 1, "regexpStepsPerTick"),
     ("regexpStepTest", "lib/efuns/regexp.c", r"while \(scan != \(char \*\) NULL\)" + W + r"\{" + W + r"if \(--regsteps < 0\)" + W + r"return \(0\);", 1, None),
     ("regexpChargeBack", "lib/efuns/regexp.c", r"regsteps = budget;" + W + r"ret = regexec_steps \(prog, string\);" + W + r"used = \(budget - \(regsteps > 0 \? regsteps : 0\)\) / REGEXP_STEPS_PER_TICK;" + W + r"if \(eval_cost > 1\)" + W + r"eval_cost = \(used >= eval_cost - 1\) \? 1 : eval_cost - used;", 1, None),
+    ("catchAtDepthMarked", "src/frame.c", r"if \(!save_context \(&econ\)\)" + W + r"\{" + W + r"(?:/\*.*?\*/)?" + W + r"set_error_state \(ES_STACK_FULL\);" + W + r"error \(\"\*Can't catch too deep recursion error", 1, None),
+    ("traceInTraceWithoutArgs", "src/error_context.c", r"if \(in_error\)" + W + r"\{.{0,200}?debug_message_with_location \(err\);" + W + r"(?:/\*.*?\*/)?" + W + r"dump_trace \(0\);", 1, None),
     ("setLimitCast", "lib/efuns/unsorted.c", r"default:" + W + r"CONFIG_INT \(__MAX_EVAL_COST__\) = \(int\)sp->u.number;" + W + r"if \(CONFIG_INT \(__MAX_EVAL_COST__\) < 1\)", 1, None),
     ("aggregateAlloc", "src/interpret.c", r"unsigned short offset;.{0,60000}?case F_AGGREGATE:" + W + r"\{" + W + r"array_t \*v;" + W + r"LOAD_SHORT \(offset, pc\);" + W + r"offset \+= \(unsigned short\)num_varargs;" + W + r"num_varargs = 0;" + W + r"v = allocate_empty_array \(\(int\) offset\);", 1, None),
     ("callbackTickBlock", "src/interpret.c", r"svalue_t\* call_efun_callback \(function_to_call_t \* ftc, int n\) \{" + W + r"svalue_t \*v;" + W + r"(?:/\*.*?\*/)?" + W + r"if \(!--eval_cost\)" + W + r"\{" + W + r"set_error_state \(ES_MAX_EVAL_COST\);" + W + r"eval_cost = CONFIG_INT \(__MAX_EVAL_COST__\);" + W + r"error", 1, None),
@@ -655,8 +657,9 @@ class C04(Prop):
                   "array / buffer / mapping / string constructor incl. mapping * mapping, save_variable / restore_variable, regexp, "
                   "reg_assoc for all operand sizes and int64 arguments - szCmd_satisfies_spec: the size clause never fires on the model's "
                   "answer to any constructor command; (4) the depth-limited value walks (svalue_save_size, copy) for every value; "
-                  "(5) mapping count = nodes across inserts, partially applied `+=` and in-place `*=`.  Tied to the source by regenerated "
-                  "constants, 54 guard sites, the opcode lists, and by running generated LPC programs and constructor calls on the real "
+                  "(5) mapping count = nodes across inserts, partially applied `+=` and in-place `*=`; (6) every statement that writes eval_cost "
+                  "or the configured budget, regenerated as an inventory and justified by a rule table; regexp matching charged against the budget.  Tied to the source by regenerated "
+                  "constants, 63 guard sites, the opcode lists, the refill inventory, and by running generated LPC programs and constructor calls on the real "
                   "driver under small limits; the Lean oracle judges every implementation trace")
     level_note = ("trusted: Lean kernel; extract.py; props/c04.py as the translator from a shape term to LPC source and as the "
                   "(regex / brace-matching) reader of the guard sites and of eval_instruction's switch; the correspondence harness "
@@ -677,12 +680,13 @@ class C04(Prop):
             "constructor with its ok/err counts and the loop opcodes executed in budget-stopped runs; a case is non-trivial when its "
             "trace has >= 2 lines; distinct = distinct canonical implementation trace")
     not_covered = ["work done inside one efun call that makes no callback (hashing, copying, `%*s` padding, unique_array's group search) is bounded by the size limits, not by the evaluation cost",
-                   "instructions the master's error handler executes after a limit error (it runs on a refreshed budget; bounded by an allowance in the oracle, not modelled); in_error nesting beyond the two repaired paths",
+                   "instructions executed for an error delivery (master error_handler, or the driver's trace): counted per delivery and bounded by an allowance of 250 per measured delivery, not executed by the machine; fatal-error paths of error_handler",
                    "C recursion depth of walks that have no limit of their own: sprintf(\"%O\") through nested function-pointer arguments, free_svalue on values nested tens of thousands deep (observations in notes/C04.md: stack overflow of the driver reachable with the default budget; C01 material)",
                    "wall-clock time and memory of a single efun call",
                    "unchecked value-stack pushes by the interpreter itself (F_PUSH, argument pushes, merge_arg_lists): confirmed defect that belongs to C01; the slots above StackSize are watched for the generated programs only",
                    "efuns excluded from the size decisions: see EFUN_EXCLUDED in props/c04.py (each with its reason; the check fails when an efun returning a sized value is in neither table); classes rebuilt by restore_variable are not limited by MaxArraySize",
-                   "set_eval_limit(0): a privileged efun that resets the running budget by design",
+                   "set_eval_limit(): the statements are in the refill inventory as privileged rules; that only privileged code reaches the efun (simul_efun wrapper, valid_override) is not checked",
+                   "time of single efuns is polynomial in the size limits (sprintf field width up to 2^31 iterations, unique_array quadratic in MaxArraySize): measured, not modelled; only regexp backtracking is charged",
                    "the real backend loop (eval_cost reset before each task is located as a site, the harness makes the same assignment)"]
     trusted = ["props/c04.py: shape term -> LPC source translator", "props/c04.py: gen_loop (reader of eval_instruction's loop and switch)"]
 
@@ -919,6 +923,14 @@ class C04(Prop):
                     if conf.startswith("eh") and k % 3:      # (with a handler the trace is not printed: a third of the combinations)
                         continue
                     B.append(self.mk("b-%s-%s-%s" % (conf, argkind, name), root, conf=conf, argkind=argkind, **kw))
+        # repaired: catch () at full depth marks its error (no master error_handler () needed to keep it from enclosing catches)
+        for conf in ("noeh", "noeh-args", "eh-args"):
+            B.append(self.mk("b-%s-crecur-even" % conf, Q(X, W(5)), depth=20, conf=conf, argkind="obj"))
+            B.append(self.mk("b-%s-crecur-odd" % conf, Q(C(X), W(5)), depth=21, conf=conf, argkind="str"))
+        # repaired: an error while the trace is printed (no budget for master::object_name) does not print traces recursively
+        for conf in ("eh-args", "noeh-both", "eh-locals"):
+            B.append(machine_case("b-%s-budget1" % conf, Q(F(2, E_), E_), -2, 30, 300, 0, {"origin": "boundary"}, self.idx_or_default(),
+                                  "setlimit", conf=conf, argkind="obj"))
         # callbacks whose work adds up to more than the budget: the expiry comes inside one of them
         B.append(self.mk("b-cb-overbudget-map", Q(Bk(40, W(60)), W(5)), cost=2000))
         B.append(self.mk("b-cb-overbudget-filter", C(Bk(60, W(25, 1), 1)), cost=2000))
